@@ -277,9 +277,55 @@ fn chunk_case(cfg: &Cfg, grp: &str, case: u64, rng: &mut Rng, rep: &mut Report) 
 }
 
 // ====================================================================== (1c) no repetition, (1d) seed sensitivity
+/// One long stream read in pieces without keeping it: 260 MiB pass the points where an 8- or 16-bit block counter would
+/// wrap (1 MiB, 256 MiB). Selected blocks (the first 64, every power of two +-1, 128 past the 2^16-th, 200 random ones) are
+/// compared with the definition BLAKE3-XOF(seed || le64(block index)); the digest of block k is compared with block 2^16 + k.
+fn wrap_case(cfg: &Cfg, grp: &str, case: u64, rng: &mut Rng, rep: &mut Report) {
+    let seed = rand_seed(rng);
+    let total_blocks: u64 = (1 << 16) + 1024;
+    let mut want: std::collections::BTreeSet<u64> = (0..64).chain((1 << 16)..(1 << 16) + 128).collect();
+    for k in 6..=16u32 { for d in [-1i64, 0, 1] { let b = (1i64 << k) + d; if b >= 0 && (b as u64) < total_blocks { want.insert(b as u64); } } }
+    for _ in 0..200 { want.insert(rng.below(total_blocks)); }
+    let mut g = blake(seed);
+    let chunk_blocks = 256usize; // 1 MiB per read, split at a random point so that reads are not block aligned
+    let mut buf = vec![0u8; chunk_blocks * 4096];
+    let mut first_digests: Vec<[u8; 16]> = Vec::with_capacity(1024);
+    let mut b0 = 0u64; let mut bad = 0u64; let mut checked = 0u64;
+    while b0 < total_blocks {
+        let nb = chunk_blocks.min((total_blocks - b0) as usize); let len = nb * 4096;
+        let cut = rng.range(1, len as u64 - 1) as usize;
+        let r = lib(|| { g.fill_bytes(&mut buf[..cut]); g.fill_bytes(&mut buf[cut..len]); });
+        if let Err(p) = r { panic_v(cfg, grp, case, rep, "blake.fill_bytes", "long_stream", &p, json!({"seed": hex(&seed), "block": b0})); return; }
+        for j in 0..nb {
+            let bi = b0 + j as u64; let blk = &buf[j * 4096..(j + 1) * 4096];
+            if bi < 1024 { first_digests.push(blake3::hash(blk).as_bytes()[..16].try_into().unwrap()); }
+            if bi >= (1 << 16) && bi < (1 << 16) + 1024 {
+                let d: [u8; 16] = blake3::hash(blk).as_bytes()[..16].try_into().unwrap();
+                if d == first_digests[(bi - (1 << 16)) as usize] && bad == 0 {
+                    bad += 1;
+                    rep.violation(&format!("{}|blake.norepeat|block4096_after_2^16_blocks|repeat", P), format!("block {} of the stream equals block {} (the stream repeats after 256 MiB) ; seed {}", bi, bi - (1 << 16), hex(&seed)), replay_json(cfg, grp, case, json!({"seed": hex(&seed)})));
+                }
+            }
+            if want.contains(&bi) {
+                checked += 1;
+                if model_block(&seed, bi)[..] != *blk && bad < 3 {
+                    bad += 1;
+                    rep.violation(&format!("{}|blake.long_stream|block_vs_definition_beyond_2^{}|value", P, if bi >= (1 << 16) { 16 } else if bi >= 256 { 8 } else { 0 }), format!("block {} of a {}-block stream differs from BLAKE3-XOF(seed||{}) ; seed {}", bi, total_blocks, bi, hex(&seed)), replay_json(cfg, grp, case, json!({"seed": hex(&seed), "block": bi})));
+                }
+            }
+        }
+        b0 += nb as u64;
+    }
+    rep.evals(checked + 1024);
+    rep.distinct_key(&format!("wrap|{}", case));
+    rep.count_n("norepeat", "long_stream_bytes(260MiB_per_seed)", total_blocks * 4096);
+    rep.count_n("norepeat", "long_stream_blocks_vs_definition", checked);
+    rep.count_n("norepeat", "long_stream_blocks_vs_block_minus_2^16", 1024);
+}
+
 fn norepeat_case(cfg: &Cfg, grp: &str, case: u64, rng: &mut Rng, rep: &mut Report) {
     let (seed, sclass) = if case == 0 { ([0u8; 64], "all_zero") } else if case == 1 { ([0xffu8; 64], "all_ff") } else { (rand_seed(rng), "random") };
-    let len: usize = ((cfg.pick(8usize, 256) << 20) as f64 * cfg.scale.min(1.0)) as usize / 4096 * 4096;
+    let len: usize = ((cfg.pick(8usize, 272) << 20) as f64 * cfg.scale.min(1.0)) as usize / 4096 * 4096;
     let len = len.max(4096 * 4);
     let mut g = blake(seed);
     let mut buf = vec![0u8; len];
@@ -1009,6 +1055,7 @@ pub fn run(cfg: &Cfg, rep: &mut Report) -> PropMeta {
     run_cases(cfg, "blake_chunkings", cfg.n(6000, 60000) as u64, rep, |i, rng, rep| chunk_case(cfg, "blake_chunkings", i, rng, rep));
     lap(rep, "blake_chunkings");
     run_cases(cfg, "blake_norepeat", cfg.n(16, 16) as u64, rep, |i, rng, rep| norepeat_case(cfg, "blake_norepeat", i, rng, rep));
+    run_cases(cfg, "blake_counter_wrap", cfg.pick(2, 8), rep, |i, rng, rep| wrap_case(cfg, "blake_counter_wrap", i, rng, rep));
     lap(rep, "blake_norepeat");
     run_cases(cfg, "blake_bitflip", cfg.n(32, 256) as u64, rep, |i, rng, rep| bitflip_case(cfg, "blake_bitflip", i, rng, rep));
     lap(rep, "blake_bitflip");
